@@ -25,6 +25,9 @@ package common
 //@   requires g.IgnoreErrorTypeMap != nil
 //@   requires[globals-initialised] jsonConfig != nil && GConfig != nil && GConfig.ReferOtherFileMap != nil && GConfig.LuaInMap != nil
 //@   ensures[not-json-mode] !g.ReadJSONFlag
+// the table of ignored names exists on every path (the master-off path returned before it was made: a local run then
+// wrote into a nil map at initialize) and an existing one is kept (a later settings change used to empty it): fix ee11ea2
+//@   ensures[ignored-names-table-exists-and-is-kept] g.IgnoreVarMap != nil && (old(g.IgnoreVarMap) != nil ==> g.IgnoreVarMap == old(g.IgnoreVarMap))
 //@   ensures[master-switch] len(checkFlagList) >= 1 ==> g.showWarnFlag == checkFlagList[0]
 //@   ensures[master-off-ignores-all] len(checkFlagList) >= 1 && !checkFlagList[0] ==> forall(t, 1, 30, has(g.IgnoreErrorTypeMap, t))
 //@   ensures[type-ignored-iff-switch-off] len(checkFlagList) >= 1 && checkFlagList[0] ==>
@@ -515,4 +518,17 @@ package common
 //@   ensures[identifier-in-front-of-the-function-is-inside-the-range] (varLoc.StartLine < funcLoc.StartLine || (varLoc.StartLine == funcLoc.StartLine && varLoc.StartColumn < funcLoc.StartColumn))
 //@        ==> result.StartLine == varLoc.StartLine && result.StartColumn == varLoc.StartColumn && result.EndLine == funcLoc.EndLine && result.EndColumn == funcLoc.EndColumn
 //@   ensures[otherwise-the-range-of-the-function] !(varLoc.StartLine < funcLoc.StartLine || (varLoc.StartLine == funcLoc.StartLine && varLoc.StartColumn < funcLoc.StartColumn)) ==> result == funcLoc
+//@ end
+
+// ---- C15 / C14: the completion cache remembers, per label, the slot that holds it ----
+// a ---@field label inserted for the first time is indexed at the slot it was appended to (a later class of the
+// inheritance list that declares the same field replaces THAT slot - not its neighbour); a known label keeps its slot
+//@ func (*CompleteCache).InsertCompleteClassField
+//@   props C15 C14
+//@   requires cache != nil && cache.existMap != nil && field != nil
+//@   requires[known-labels-are-indexed-inside-the-list] has(cache.existMap, label) ==> 0 <= cache.existMap[label] && cache.existMap[label] < len(cache.dataList)
+//@   ensures[a-new-label-is-indexed-at-the-slot-it-was-appended-to] !old(has(cache.existMap, label)) ==> has(cache.existMap, label) && cache.existMap[label] == len(cache.dataList) - 1
+//@        && len(cache.dataList) == old(len(cache.dataList)) + 1 && streq(cache.dataList[len(cache.dataList) - 1].Label, label)
+//@   ensures[a-known-label-is-replaced-in-its-own-slot] old(has(cache.existMap, label)) ==> len(cache.dataList) == old(len(cache.dataList)) && cache.existMap[label] == old(cache.existMap[label])
+//@        && streq(cache.dataList[cache.existMap[label]].Label, label)
 //@ end
